@@ -2,6 +2,7 @@ import RedisVerif.Driver.C07
 import RedisVerif.Driver.C08
 import RedisVerif.Driver.C06
 import RedisVerif.Driver.C06Msg
+import RedisVerif.Driver.C06Sim
 import RedisVerif.Driver.C01
 import RedisVerif.Driver.C01Data
 import RedisVerif.Driver.C15
@@ -43,7 +44,7 @@ def main (args : List String) : IO UInt32 := do
   | ["C07"] => loop stdin stdout C07.step; return 0
   | ["C05"] => loopState stdin stdout C05.step C05.St.init; return 0
   | ["C16"] => loop stdin stdout C16.step; return 0
-  | ["C06"] => loopState stdin stdout C06Msg.stepAll C06Msg.MState.init; return 0
+  | ["C06"] => loopState stdin stdout C06Sim.stepAll C06Sim.SState.init; return 0
   | ["C08"] => loopState stdin stdout C08.stepAll C08.DState.init; return 0
   | ["C01"] | ["C17"] => loopState stdin stdout C01Data.stepLine C01Data.DState.init; return 0
   | ["C15"] => loop stdin stdout C15.step; return 0
